@@ -23,6 +23,14 @@ from onnx_ir.journaling import _wrappers
 _current_journal: Journal | None = None
 
 
+def _safe_repr(obj: Any) -> str:
+    """``repr(obj)``, or a placeholder when the object cannot describe itself."""
+    try:
+        return repr(obj)
+    except Exception as e:  # pylint: disable=broad-exception-caught
+        return f"<{type(obj).__name__} object (repr failed: {type(e).__name__}: {e})>"
+
+
 @dataclasses.dataclass(frozen=True)
 class JournalEntry:
     """A single journal entry recording an operation on the IR.
@@ -71,7 +79,7 @@ class JournalEntry:
         if self.ref is None:
             object_repr = "<no ref>"
         elif (obj := self.ref()) is not None:
-            object_repr = repr(obj)
+            object_repr = _safe_repr(obj)
         else:
             object_repr = "<deleted>"
         print("\033[1mObject:\033[0m")
@@ -221,7 +229,7 @@ class Journal:
             if entry.ref is None:
                 object_repr = "<no ref>"
             elif (obj := entry.ref()) is not None:
-                object_repr = repr(obj).replace("\n", "\\n")
+                object_repr = _safe_repr(obj).replace("\n", "\\n")
                 if len(object_repr) > 100:
                     object_repr = object_repr[:95] + "[...]"
             else:
